@@ -427,6 +427,9 @@ func method(m *spec.Method) {
 				dsl.Param(mapped(a, m.Params[a]))
 			}
 			for _, a := range sortedKeys(m.Headers) {
+				if m.ImplicitHeaders[a] {
+					continue // left to goa: a credential without a location travels in Authorization
+				}
 				dsl.Header(mapped(a, m.Headers[a]))
 			}
 			for _, a := range sortedKeys(m.Cookies) {
